@@ -59,6 +59,9 @@ theorem sessionStep_error_state (E : AEAD) (B : Ctx) (st : RState) (o : Msg) (e 
   by_cases hr : isResponse o.code = true
   · simp [hr]
   · simp only [hr, Bool.false_eq_true, ↓reduceIte] at h ⊢
+    by_cases hc : (!(o.code == 2 || o.code == 5)) = true
+    · simp [hc]
+    simp only [hc, Bool.false_eq_true, ↓reduceIte] at h ⊢
     cases hn : requestSeqno B o with
     | none =>
       simp only [hn] at h ⊢
